@@ -3,27 +3,27 @@ import SignaloModel.Proofs.ClassifyProofs
 /-!
 # C08 — Threshold, Schmitt trigger and debounce follow their reference automata
 
-Property theorems for C08 (statements are printed by `#check`, axioms by `#check @Registry.schmitt_registry
+The property theorems for C08: `#check` prints each statement, `#print axioms` its axioms;
+`bin/check C08` re-elaborates this file on every run and audits the axiom lists.
+-/
+open SignaloModel
+
+#check @Registry.schmitt_registry
 #check @Registry.debounce_registry
 #check @Registry.threshold_registry
 #check @Registry.schmitt_registry_correct
 #check @Registry.debounce_registry_correct
-#print axioms`;
-`bin/check C08` re-elaborates this file on every run and audits the axiom lists).
--/
-open SignaloModel
-
 #check @Classify.schmitt_ref
 #check @Classify.debounce_eq_min
 #check @Classify.debounce_on_iff
 #check @Classify.runLenFrom_spec
 
-#print axioms Classify.schmitt_ref
-#print axioms Classify.debounce_eq_min
-#print axioms Classify.debounce_on_iff
-#print axioms Classify.runLenFrom_spec
 #print axioms Registry.schmitt_registry
 #print axioms Registry.debounce_registry
 #print axioms Registry.threshold_registry
 #print axioms Registry.schmitt_registry_correct
 #print axioms Registry.debounce_registry_correct
+#print axioms Classify.schmitt_ref
+#print axioms Classify.debounce_eq_min
+#print axioms Classify.debounce_on_iff
+#print axioms Classify.runLenFrom_spec
